@@ -146,11 +146,11 @@ def work(job):
         src = A.pp(prog)
         try:
             with common.time_limit(120):
-                st, r, info = common.compile_traced(src, options)
+                st, r, info = common.compile_traced(src, {k: v for k, v in options.items() if not k.startswith("_")})
         except common.CaseTimeout:
             out.append({"i": i, "compile": "timeout", "src": src})
             continue
-        rec = {"i": i, "prog": prog, "src": src, "compile": st, "why": None if st == "ok" else str(r)[:160],
+        rec = {"i": i if not options.get("_tag") else f"{i}{options['_tag']}", "prog": prog, "src": src, "compile": st, "why": None if st == "ok" else str(r)[:160],
                "failed_pass": info["failed_pass"], "hook_ok": info["hook_ok"], "runs": []}
         if st == "ok":
             try:
@@ -164,7 +164,7 @@ def work(job):
                 obs = A.run_vm(program, "f", {k: A.dec(v) for k, v in args.items()}, {k: A.dec(v) for k, v in gl.items()}, budget=300000)
                 obs["ret_repr"] = A.show_py(obs.get("ret"))
                 rec["runs"].append({"j": j, "args": args, "globals": gl, "obs": obs})
-            if irm_limit is not None and (0 <= i < irm_limit or -len(family_redecl()) <= i < 0):
+            if irm_limit is not None and isinstance(rec["i"], int) and (0 <= i < irm_limit or -len(family_redecl()) <= i < 0):
                 # the same runs once more with the instruction tracer, for spec/IRMachine.tla
                 from nsl import LinearIR as L
                 params = [p_["n"] for p_ in [f for f in prog["funcs"] if f["name"] == "f"][0]["params"]]
@@ -182,6 +182,8 @@ def collect(ctx, n, feat, options, chunk=25, with_family=False, irm_limit=None):
         nf = len(all_family())
         # family members get negative indices -nf .. -1 (one job: family() is rebuilt per job)
         jobs += [(ctx.seed, -nf + lo, -nf + min(nf, lo + 64), feat, options, irm_limit) for lo in range(0, nf, 64)]
+        # the deterministic family once more with optimisation on (what the source says does not depend on the option)
+        jobs += [(ctx.seed, -nf + lo, -nf + min(nf, lo + 64), feat, dict(options, optimize=True, _tag="O1"), None) for lo in range(0, nf, 64)]
     with mp.Pool(16) as pool:
         res = pool.map(work, jobs)
     return [r for out in res for r in out]
@@ -264,7 +266,7 @@ def run(ctx, args):
             counts[kind + (":" + detail if kind == "unjudged" and len(detail) < 12 else "")] = counts.get(kind + (":" + detail if kind == "unjudged" and len(detail) < 12 else ""), 0) + 1
             if kind == "agree":
                 if s["steps"] > 40:
-                    nontrivial.add(r["i"])
+                    nontrivial.add(str(r["i"]))
                 if len(samples) < 3 and s["steps"] > 150:
                     samples.append({"source": r["src"], "args": {k: A.dec(v) for k, v in run["args"].items()},
                                     "globals_before": {k: A.dec(v) for k, v in run["globals"].items()},
